@@ -580,6 +580,42 @@ Section Ref.
     | OBreak | OContinue => Unsup "static:break-outside-loop"
     | _ => Ok s
     end.
+
+  (* ---------------------------------------------------------------- entries through the host API
+     After initialisation the host may call a global function directly (starlark.Call on an idle
+     thread): the function's activation is then the outermost one.  The result is recorded as a
+     host-visible effect, like a call of trace("<result>", v). *)
+  Definition result_event (w : world) (v : value) : option event :=
+    match repr fname deep_fuel w (VStr "<result>"), repr fname deep_fuel w v with
+    | Some a, Some b => Some ([a; b], [])
+    | _, _ => None
+    end.
+
+  Fixpoint run_calls (n : nat) (calls : list (string * list value)) (s : rst) : res rst :=
+    match calls with
+    | [] => Ok s
+    | (f, args) :: r =>
+        match gidx f with
+        | Some i =>
+            match nth_error (rg s) i with
+            | Some (Some fv) =>
+                do (v, s1) <- call n [] fv args [] (0, 0)%nat s;
+                match result_event (rw s1) v with
+                | Some ev => run_calls n r (with_w s1 (add_event ev (rw s1)))
+                | None => Unsup "render"
+                end
+            | _ => Unsup "host-call:no-such-global"
+            end
+        | None => Unsup "host-call:no-such-global"
+        end
+    end.
+
+  Definition run_module_calls (n : nat) (calls : list (string * list value)) : res rst :=
+    do s <- run_module n;
+    match calls with
+    | [] => Ok s
+    | _ => run_calls n calls {| rg := rg s; rw := freeze_all (rw s) |}
+    end.
 End Ref.
 
 Definition observe_ref (r : res rst) : observation :=
